@@ -113,7 +113,7 @@ var zzUsers = []string{"alice", "bob"}
 // user's next report is refused exactly once; the online listing equals
 // connects minus disconnects and has no entry at zero.
 //
-//verif:harness kind=api unwind=64 bound=ops<=4(quick)/6(thorough),2-users,amounts<2^32
+//verif:harness kind=api unwind=64 bound=ops<=4(quick)/5(thorough),2-users,amounts<2^32
 func ZZ_C15_ConservationSequential() {
 	s := NewTrafficStatsServer("")
 	var allowedTx, allowedRx, seenTx, seenRx [2]uint64
@@ -121,7 +121,7 @@ func ZZ_C15_ConservationSequential() {
 	var online [2]int
 	ops := 4
 	if verifThorough() {
-		ops = 6
+		ops = 5
 	}
 	for i := 0; i < ops; i++ {
 		u := verifChoice("user", 2)
